@@ -118,6 +118,7 @@ func Load(repoDir, modulePath string, patterns []string) (*Engine, error) {
 			e.addFile(sf, p.Types)
 		}
 	})
+	e.resolveClosureAliases()
 	e.expandSweeps()
 	return e, nil
 }
